@@ -62,6 +62,11 @@ class Var(E):
 
 class Bin(E):
     def __init__(self, op, l, r, ty):
+        # the tree must be the tree Sass parses: an operand that is itself an operation is parenthesised
+        if isinstance(l, (Bin, Not)):
+            l = Paren(l)
+        if isinstance(r, (Bin, Not)):
+            r = Paren(r)
         self.op, self.l, self.r, self.ty = op, l, r, ty
         self.slashy = op == "/"
         self.lazy_ctx = op in ("and", "or")
@@ -79,6 +84,8 @@ class Bin(E):
         self.l.toks(o)
         if self.op == "/":
             o.append("/")
+        elif self.op in LOGIC_OPS:
+            o += [SPL, self.op, SPL]
         else:
             o += [SP, self.op, SP]
         self.r.toks(o)
@@ -113,7 +120,7 @@ class Not(E):
         self.e = e
 
     def toks(self, o):
-        o += ["not", SP]
+        o += ["not", SPL]
         self.e.toks(o)
 
 
@@ -159,7 +166,7 @@ class SList(E):
 
     def toks(self, o):
         if self.bracket:
-            o += ["[", OPT]
+            o += ["[", OPTB]
         for i, a in enumerate(self.items):
             if i:
                 o += [SP] if self.sep == " " else [",", SP]
@@ -205,13 +212,22 @@ class Interp(E):
 
     def toks(self, o):
         q = '"' if self.quoted else ""
-        o += [q + self.pre + "#{", SPW_OPT]
+        o += [q + self.pre + "#{", OPTWL]
         self.e.toks(o)
         o += [SPW_OPT, "}" + self.post + q]
 
 
 SPW_OPT = ("sep", "optw")   # optional gap, blanks only
 DEFAULT[SPW_OPT] = ""
+# gaps with their own kind because rsass is known to mishandle them (C35 findings): they can be
+# switched off one by one when a failure is attributed to a known finding
+OPTWL = ("sep", "optwl")    # right after `#{` (blanks only)
+OPTB = ("sep", "optb")      # right after `[`
+SPL = ("sep", "spl")        # around == != < > <= >= and or / after not
+DEFAULT[OPTWL] = ""
+DEFAULT[OPTB] = ""
+DEFAULT[SPL] = " "
+LOGIC_OPS = ("==", "!=", "<", ">", "<=", ">=", "and", "or")
 
 IDENTS = ["bold", "solid", "auto", "none", "block", "a", "b-c", "d_e", "inherit", "serif", "x1"]
 COLORS = ["red", "blue", "#ff0000", "#0a0b0c", "#abc", "green", "#FFF", "transparent"]
@@ -733,6 +749,29 @@ class Diag(S):
         o += ["@" + self.kind, SP]
         self.e.toks(o)
         o += [OPT, ";"]
+
+
+INLINE_IMPORTS = [False]
+
+
+class ImportPartial(S):
+    """`@import "name";` of a partial that holds `frag` (C35's move-into-partial rewrite); with
+    INLINE_IMPORTS set the fragment is printed in place instead (the rewrite undone)"""
+
+    def __init__(self, name, frag):
+        self.name, self.frag = name, frag
+
+    def blocks(self):
+        return []
+
+    def toks(self, o):
+        if INLINE_IMPORTS[0]:
+            for i, st in enumerate(self.frag):
+                if i:
+                    o.append(NL)
+                st.toks(o)
+        else:
+            o.append(f'@import "{self.name}";')
 
 
 class Raw(S):
